@@ -1,7 +1,7 @@
 #!/bin/bash
 # apply every seeded change in turn, run that property's quick check, undo; one summary line each
 cd /verif
-for d in seeded/C*/ seeded/C*/round2/; do
+for d in seeded/C*/ seeded/C*/round*/; do
   [ -f $d/patch.diff ] || continue
   p=$(echo $d | sed 's#seeded/\(C[0-9]*\)/.*#\1#')
   f=$d/patch.diff; [ -f $d/patch_rebased.diff ] && f=$d/patch_rebased.diff
